@@ -260,7 +260,7 @@ def run_shard(args):
     work, shard = args
     t = time.time()
     rc, out = sh(["coqc", "-Q", os.path.join(COQ, "theories"), "Goloop", "-Q", os.path.join(COQ, "run"), "GoloopRun",
-                  "-w", "none", shard["file"]], cwd=work, timeout=3000)
+                  "-w", "none", "-noglob", shard["file"]], cwd=work, timeout=3000)
     m = re.search(r"M\s*=\s*(\[.*?\])\s*:\s*list nat", out, flags=re.S)
     if rc != 0 or not m:
         return shard, None, out[-3000:], time.time() - t
